@@ -172,6 +172,8 @@ def _accessor_cases():
         ("bv_extend_step", S.BV_ZEXT, (i0, i1), i1), ("bv_extend_step", S.BV_SEXT, (i0, i1), i1),
         ("function_name", S.FUNCTION, n0, n0), ("quantifier_vars", S.FORALL, q, q), ("quantifier_vars", S.EXISTS, q, q),
         ("array_value_index_type", S.ARRAY_VALUE, t0, t0), ("bv_unsigned_value", S.BV_CONSTANT, (i0, i1), i0),
+        # the signed reading of a well-formed constant (0 <= value < 2**width): the integer SBV() maps to it
+        ("bv_signed_value", S.BV_CONSTANT, (i0, i1), z3.If(i0 >= S.pow2(i1 - 1), i0 - S.pow2(i1), i0)),
     ]
 
 
@@ -192,6 +194,9 @@ class AccessorVariant(Variant):
         c = Obj("pysmt.fnode.FNodeContent", {"node_type": Kop, "args": self.kids, "payload": self.payload}, tag="content")
         self.nid = z3.Const("node_id", I)
         self.n = Obj(FNODE, {"_content": c, "_node_id": self.nid}, tag="node")
+        if self.acc == "bv_signed_value":
+            v, w = self.payload
+            ex.assume(z3.And(w >= 1, v >= 0, v < S.pow2(w)))
         fi = W.repo.method(FNODE, self.acc)
         fn = W.wrap_func(fi, fi.module, bound=self.n)
         if self.acc == "arg":
